@@ -8,15 +8,16 @@ from ..model import AnalysisError, attr_chain, call_name, eq_keys, stmts_in
 EXPLANATION = (
     "Static rules over the style assembly in SVG.parse and the paint handling of GraphicObject (no execution). R14.1 "
     "specificity order: the statements that append rule text to the style accumulator are read in program order (loops "
-    "unrolled twice), each classified by the selector key it looks up (*, type, .class, type.class, #id, inline style) and "
-    "weighted by CSS 2.1 section 6.4.3; because the fold that follows assigns unconditionally (last wins) the sequence must be "
-    "non-decreasing; presentation attributes are the base the fold overrides. R14.2 stylesheet reading: comments are removed "
-    "before rules are matched, selector lists are split on commas, repeated selectors accumulate in source order. R14.3 "
-    "defaults and inheritance: initial fill black / stroke none / the caller's color, stroke width default 1, children start "
-    "from a copy of the parent's values. R14.4 currentColor resolves from the element's own color before the inherited one, "
-    "for fill and stroke alike. R14.5: fill/stroke opacity are folded into the colour's alpha through the opacity setter; the "
-    "effective stroke width is width x sqrt(|det|) of the accumulated transform, or of the viewport transform alone under "
-    "non-scaling-stroke; a percentage stroke width resolves against sqrt((w^2 + h^2)/2). Not decided: the cascade outcome on "
+    "unrolled twice; a loop over a literal list of selector spellings is followed element by element), each classified by "
+    "the selector key it looks up (*, type, .class, type.class, #id, inline style) and weighted by CSS 2.1 section 6.4.3; "
+    "because the fold that follows assigns unconditionally (last wins) the sequence must be non-decreasing; presentation "
+    "attributes are the base the fold overrides. R14.2 stylesheet reading: comments are removed before rules are matched, "
+    "selector lists are split on commas, repeated selectors accumulate in source order. R14.3 defaults and inheritance: "
+    "initial fill black / stroke none / the caller's color, stroke width default 1, children start from a copy of the "
+    "parent's values. R14.4 currentColor resolves from the element's own color before the inherited one, for fill and "
+    "stroke alike. R14.5: fill/stroke opacity are folded into the colour's alpha through the opacity setter; the effective "
+    "stroke width is width x sqrt(|det|) of the accumulated transform, or of the viewport transform alone under non-"
+    "scaling-stroke; a percentage stroke width resolves against sqrt((w^2 + h^2)/2). Not decided: the cascade outcome on "
     "generated documents; source order between different selectors of equal specificity (rules are stored per selector)."
 )
 TECHNIQUE = (
@@ -117,6 +118,19 @@ def sequence(ctx, stmts, fmt_of, acc, tagvar):
             out += sequence(ctx, s.orelse, fmt_of, acc, tagvar)
             continue
         if isinstance(s, ast.For):
+            if isinstance(s.iter, (ast.Tuple, ast.List)) and isinstance(s.target, ast.Name):
+                # a loop over a literal list of selector spellings: the body once per element, in order
+                once = []
+                for e in s.iter.elts:
+                    f2 = dict(fmt_of)
+                    k = fmt_kind(e) or (fmt_of.get(e.id) if isinstance(e, ast.Name) else None)
+                    if k:
+                        f2[s.target.id] = k
+                    else:
+                        f2.pop(s.target.id, None)
+                    once += sequence(ctx, s.body, f2, acc, tagvar)
+                out += once
+                continue
             once = sequence(ctx, s.body, fmt_of, acc, tagvar)
             out += once + once
             continue
@@ -427,8 +441,12 @@ def paint(ctx):
     par = op.args.args[1].arg
 
     def scaled(n):
-        if isinstance(n, ast.Call) and call_name(n) == "round" and n.args and isinstance(n.args[0], ast.BinOp) and isinstance(n.args[0].op, ast.Mult):
-            l, r = n.args[0].left, n.args[0].right
+        if isinstance(n, ast.Call) and call_name(n) == "round" and n.args:
+            from ..flow import unclamp
+            inner, ranges = unclamp(n.args[0])  # clamping the opacity to 0..1 first is the identity on legal values
+            if any(r != (0, 1) for r in ranges) or not (isinstance(inner, ast.BinOp) and isinstance(inner.op, ast.Mult)):
+                return False
+            l, r = inner.left, inner.right
             return (isinstance(l, ast.Name) and l.id == par and const_value(ctx.m, r) in (255, 255.0)) or (isinstance(r, ast.Name) and r.id == par and const_value(ctx.m, l) in (255, 255.0))
         return False
 
